@@ -6,7 +6,8 @@ import json, os, subprocess, sys, collections
 ROOT = os.environ.get("VERIF_ROOT", "/verif")
 prop, tier = sys.argv[1], (sys.argv[2] if len(sys.argv) > 2 else "quick")
 symx = os.environ.get("SYMX_BIN", f"{ROOT}/symx/target/debug/symx")
-p = subprocess.run([sys.executable, f"{ROOT}/mir2smt/mir2smt.py", tier], capture_output=True, text=True)
+families = sys.argv[3] if len(sys.argv) > 3 else "checked"
+p = subprocess.run([sys.executable, f"{ROOT}/mir2smt/mir2smt.py", tier, families], capture_output=True, text=True)
 try:
     d = json.loads(p.stdout)
 except Exception:
@@ -41,7 +42,7 @@ for v in d["violations"]:
     if not s:
         unconfirmed.append(v)
         continue
-    if v["lemma"].startswith("L5"):
+    if v["lemma"].startswith("L5") or v["lemma"].startswith("L6"):
         # a lemma about the interpreter's move/scan ops: rebuild the geometry and run the real
         # interpreter on [Mov/Scan; store at min; store at max] against the unbounded-tape reading,
         # block flush against a guard page.  The release build is used: a debug build re-enters
@@ -51,7 +52,11 @@ for v in d["violations"]:
             unconfirmed.append(v)
             continue
         op = v["lemma"].split()[1].rstrip(":")
-        case = {"kind": "probe", "engine": "bcint", "property": prop, "width": 8 * s["cell_bytes"], "shift": s["b"], "min": ex[0], "max": ex[1], "size": s["size"], "k": s["a"], "lemma": v["lemma"]}
+        unchecked = v["lemma"].startswith("L6")
+        if unchecked:
+            c0 = ex[2] if len(ex) >= 3 else 0
+            ex = [min(0, c0), max(0, c0)] + list(ex[2:])
+        case = {"kind": "probe", "engine": "bcint-unchecked" if unchecked else "bcint", "property": prop, "width": 8 * s["cell_bytes"], "shift": s["b"], "min": ex[0], "max": ex[1], "size": s["size"], "k": s["a"], "lemma": v["lemma"]}
         if op.startswith("scan") and len(ex) >= 3:
             case["scan_cond"] = ex[2]
         rel = release_symx()
@@ -115,10 +120,11 @@ summary = {
     "lemmas": ["L1a no overflow / divide-by-zero assert of make_accessible is reachable",
                "L1 after make_accessible(s,e) both ends of the requested range are accessible; a reallocation copies exactly the old block to new_buffer + added_below with added_below + size <= new_size; offset' = offset + added_below; without reallocation the state is unchanged",
                "L4 check(i) and check_ptr(current_ptr()+k) hold exactly for cells inside the block; set_current_ptr(current_ptr()+k) moves the logical pointer by k",
+               "L6 (only when the unchecked family is requested, C10) the SAFE = false instantiation of movl/movr/scanl/scanr is plain pointer arithmetic: shift cells per step, the scan condition read at cond, Memory untouched, next instruction at ip + 2 / ip + 3",
                "L5 the bytecode interpreter's movl/movr/scanl/scanr (checked instantiation, with checkl/checkr and the Memory methods inlined from their MIR): from a state where the whole access window [min_accessed, max_accessed] around the pointer is inside the block, after the move (or after one iteration of the scan loop, cut at the loop head) the whole window around the new pointer is inside the - possibly reallocated - block, the new pointer denotes the moved logical cell (same distance from the copied old block), every cell the scan condition reads is inside the block owned at that moment, no overflow assert is reachable, and the next instruction is at ip + 2 / ip + 3; one feasible path with and one without reallocation is exhibited per op and cell size (vacuity witnesses)"],
     "vacuity_witnesses": {"queries": len(d.get("vacuity_witnesses", [])), "satisfiable": sum(1 for w in d.get("vacuity_witnesses", []) if w.get("answer") == "sat")},
     "interpreter_op_paths": d.get("ops_paths"),
-    "cell_sizes": [1, 2, 4, 8], "wall_s": d["wall_s"],
+    "cell_sizes": [1, 2, 4, 8], "wall_s": d["wall_s"], "families_run": families,
     "confirmed_natively": len(confirmed), "not_replayable": len(unconfirmed),
     "samples": d["lemmas"][:3],
 }
